@@ -59,4 +59,15 @@ let () =
          | None -> print_endline "OUT-OF-BOUNDS"
          | Some (_, chunks) ->
            print_endline ("OK" ^ String.concat "" (List.map (fun ch -> " " ^ string_of_int (List.length ch)) chunks) ^ " sum=" ^ checksum chunks))
+      | "SS" :: ops ->
+        (match ss_run [] (List.map sop_of ops) with
+         | Some str -> print_endline ("OK " ^ string_of_int (List.length str) ^ " sum=" ^ checksum [str])
+         | None -> print_endline "OUT-OF-BOUNDS")
+      | "TS" :: ops ->
+        (match t_run block_cap [] (List.map sop_of ops) with
+         | TOk (b, blocks) ->
+           let all = blocks @ t_destroy b in
+           print_endline ("OK" ^ String.concat "" (List.map (fun ch -> " " ^ string_of_int (List.length ch)) all) ^ " sum=" ^ checksum all)
+         | TOutOfBounds -> print_endline "OUT-OF-BOUNDS"
+         | TFuel -> print_endline "FUEL")
       | _ -> print_endline "?")
